@@ -132,8 +132,12 @@ class RepeatingEventBase(EventBase):
                 'value': self.value,
                 'data': data,
             }
+            time_delta = presentation_time - seg_start
+            if kwargs['version'] == 0 and time_delta > 0xFFFFFFFF:
+                # the delta of a version 0 box has 32 bits. Version 1 carries
+                # the presentation time itself in 64 bits
+                kwargs['version'] = 1
             if kwargs['version'] == 0:
-                time_delta = presentation_time - seg_start
                 kwargs['presentation_time_delta'] = time_delta
             else:
                 kwargs['presentation_time'] = presentation_time
